@@ -49,8 +49,11 @@ def norm_structs(draw, dirty=False, platform_hosts=False, userinfo=True, lookali
     # path
     seg = G.text("segment", 1, 3) if dirty else G.clean_text(1, 3)
     segs = [draw(seg) for _ in range(draw(st.integers(0, 3)))]
-    if dirty and segs and draw(st.integers(0, 5)) == 0:
-        segs.insert(draw(st.integers(0, len(segs))), draw(st.sampled_from([".", "..", ""])))
+    if segs and draw(st.integers(0, 5)) == 0:
+        # dot / empty segments, half of the time as the very last segment (the only place where no '/' follows them)
+        for _ in range(draw(st.integers(1, 2))):
+            at = len(segs) if draw(st.booleans()) else draw(st.integers(0, len(segs)))
+            segs.insert(at, draw(st.sampled_from([".", "..", "", "%2e", "%2E%2e"] if dirty else [".", "..", ""])))
     last = draw(st.integers(0, 9))
     if last == 0:
         segs.append(draw(st.sampled_from(L.INDEX_PAGES)))
